@@ -1,6 +1,12 @@
-(* C13/Run.v -- entry point of the correspondence check: life-cycle programs
-   on one table (construct, then print / set fmt / set own fmt / remove
-   columns / rebuild through the constructor / check the round trips). *)
+(* C13/Run.v -- entry point of the correspondence check.
+   [Single]: life-cycle programs on one table (construct, then print / set fmt /
+   set own fmt / remove columns / rebuild through the constructor / check the
+   round trips).
+   [Session]: several tables alive at once over record sets of one record
+   structure; tables are created from fmt strings or with fmt_obj= from a
+   shared PPTableFormat object / from another table's .fmt object; the same
+   operations are applied to any of them in any order; after every operation
+   the fmt strings of ALL tables and shared format objects are observed. *)
 From Coq Require Import ZArith List Bool.
 From AK Require Export Common.Sx Common.Err gen.C13_Consts C13.Model.
 Import ListNotations.
@@ -14,7 +20,7 @@ Inductive op :=
 | ORebuild                    (* t = PPTable(records, fmt=str(t.fmt), fields=...) *)
 | OCheck.                     (* round trips on copies of t, t itself untouched *)
 
-Record case := mkCase {
+Record case1 := mkCase {
   k_fields : list field;
   k_rows : list row;
   k_fmt : option str;
@@ -66,7 +72,8 @@ Definition step (rows : list row) (t : tstate) (o : op) : tstate * sx :=
                obs_then_print rows (rebuild t);
                obs_then_print rows (set_fmt t []);
                obs_then_print rows (set_fmt t [ch_semi]);
-               obs_then_print rows (set_fmt t [ch_semi; ch_semi]) ])
+               obs_then_print rows (set_fmt t [ch_semi; ch_semi]);
+               obs_then_print rows (Ok (ctor_obj t None None)) ])   (* PPTable(records, fmt_obj=t.fmt) *)
   end.
 
 Fixpoint steps (rows : list row) (t : tstate) (ops : list op) : list sx :=
@@ -75,11 +82,104 @@ Fixpoint steps (rows : list row) (t : tstate) (ops : list op) : list sx :=
   | o :: r => let '(t', x) := step rows t o in x :: steps rows t' r
   end.
 
+(* ------------------------------------------------------------------ *)
+(* sessions: several tables and format objects alive at once *)
+Inductive src :=
+| SShared (i : nat)          (* the i-th PPTableFormat object made at the start *)
+| STable (j : nat).          (* tables[j].fmt, the live format object of a table *)
+
+Inductive mop :=
+| MNew (k : nat) (fmt : option str) (lim : option limits) (skip : option (list str))
+      (* tables.append(PPTable(records[k], fmt=.., fields=.., fields_types=.., limits=.., skip_columns=..)) *)
+| MNewObj (k : nat) (s : src) (lim : option limits) (skip : option (list str))
+      (* tables.append(PPTable(records[k], fmt_obj=<s>, limits=.., skip_columns=..)) *)
+| MOp (j : nat) (o : op).    (* the operation on tables[j] *)
+
+Record table := mkTab { tb_k : nat; tb_st : tstate }.
+(* a failed construction leaves an empty slot, so that the numbering is static *)
+Record sess := mkSess { ss_shared : list (option tstate); ss_tabs : list (option table) }.
+
+Definition src_state (ss : sess) (s : src) : option tstate :=
+  match s with
+  | SShared i => nth i (ss_shared ss) None
+  | STable j => match nth j (ss_tabs ss) None with Some tb => Some (tb_st tb) | None => None end
+  end.
+
+Definition add_tab (ss : sess) (x : option table) : sess :=
+  mkSess (ss_shared ss) (ss_tabs ss ++ [x]).
+
+Fixpoint set_nth {A} (l : list A) (j : nat) (x : A) : list A :=
+  match l, j with
+  | [], _ => []
+  | _ :: r, O => x :: r
+  | y :: r, S j' => y :: set_nth r j' x
+  end.
+
+Definition set_tab (ss : sess) (j : nat) (tb : table) : sess :=
+  mkSess (ss_shared ss) (set_nth (ss_tabs ss) j (Some tb)).
+
+Definition sx_absent : sx := SL [SZ 2].
+
+Definition mstep (fs : list field) (rowsets : list (list row)) (ss : sess) (m : mop) : sess * sx :=
+  match m with
+  | MNew k fmt lim skip =>
+      match ctor fs fmt lim skip with
+      | Ok t => (add_tab ss (Some (mkTab k t)), SL [SZ 0; sx_str (fmt_to_str t)])
+      | Err e => (add_tab ss None, SL [SZ 1; SZ (err_code e)])
+      end
+  | MNewObj k s lim skip =>
+      match src_state ss s with
+      | Some x => let t := ctor_obj x lim skip in
+                  (add_tab ss (Some (mkTab k t)), SL [SZ 0; sx_str (fmt_to_str t)])
+      | None => (add_tab ss None, sx_absent)
+      end
+  | MOp j o =>
+      match nth j (ss_tabs ss) None with
+      | Some tb =>
+          let '(t', x) := step (nth (tb_k tb) rowsets []) (tb_st tb) o in
+          (set_tab ss j (mkTab (tb_k tb) t'), x)
+      | None => (ss, sx_absent)
+      end
+  end.
+
+(* str(.fmt) of every table and str() of every shared format object *)
+Definition sx_opt_fmt (o : option tstate) : sx :=
+  match o with Some t => SL [SZ 0; sx_str (fmt_to_str t)] | None => sx_absent end.
+Definition snapshot (ss : sess) : sx :=
+  SL (map (fun o => sx_opt_fmt (match o with Some tb => Some (tb_st tb) | None => None end)) (ss_tabs ss)
+      ++ map sx_opt_fmt (ss_shared ss)).
+
+Fixpoint msteps (fs : list field) (rowsets : list (list row)) (ss : sess) (ops : list mop) : list sx :=
+  match ops with
+  | [] => []
+  | m :: r => let '(ss', x) := mstep fs rowsets ss m in SL [x; snapshot ss'] :: msteps fs rowsets ss' r
+  end.
+
+(* PPTableFormat.make(fmt, fields, fields_types, None) *)
+Definition make_shared (fs : list field) (f : option str) : option tstate :=
+  match ctor fs f None None with Ok t => Some t | Err _ => None end.
+Definition obs_shared (fs : list field) (f : option str) : sx :=
+  match ctor fs f None None with
+  | Ok t => SL [SZ 0; sx_str (fmt_to_str t)]
+  | Err e => SL [SZ 1; SZ (err_code e)]
+  end.
+Definition init_sess (fs : list field) (shared : list (option str)) : sess :=
+  mkSess (map (make_shared fs) shared) [].
+
+Inductive case :=
+| Single (c : case1)
+| Session (fs : list field) (rowsets : list (list row)) (shared : list (option str)) (ops : list mop).
+
 (* the complete observation of a program (used when debugging a disagreement) *)
 Definition run_full (c : case) : sx :=
-  match ctor (k_fields c) (k_fmt c) (k_lim c) (k_skip c) with
-  | Err e => SL [SZ 1; SZ (err_code e)]
-  | Ok t => SL [SZ 0; sx_str (fmt_to_str t); SL (steps (k_rows c) t (k_ops c))]
+  match c with
+  | Single c =>
+      match ctor (k_fields c) (k_fmt c) (k_lim c) (k_skip c) with
+      | Err e => SL [SZ 1; SZ (err_code e)]
+      | Ok t => SL [SZ 0; sx_str (fmt_to_str t); SL (steps (k_rows c) t (k_ops c))]
+      end
+  | Session fs rowsets shared ops =>
+      SL [SZ 0; SL (map (obs_shared fs) shared); SL (msteps fs rowsets (init_sess fs shared) ops)]
   end.
 
 (* observations are long (every step carries fmt strings), so the check compares
@@ -98,8 +198,14 @@ Fixpoint hash_sx (s : sx) : Z :=
   end.
 
 Definition run (c : case) : sx :=
-  match ctor (k_fields c) (k_fmt c) (k_lim c) (k_skip c) with
-  | Err e => SL [SZ 1; SZ (err_code e)]
-  | Ok t => SL [SZ 0; SZ (hash_sx (sx_str (fmt_to_str t)));
-                SL (map (fun x => SZ (hash_sx x)) (steps (k_rows c) t (k_ops c)))]
+  match c with
+  | Single c =>
+      match ctor (k_fields c) (k_fmt c) (k_lim c) (k_skip c) with
+      | Err e => SL [SZ 1; SZ (err_code e)]
+      | Ok t => SL [SZ 0; SZ (hash_sx (sx_str (fmt_to_str t)));
+                    SL (map (fun x => SZ (hash_sx x)) (steps (k_rows c) t (k_ops c)))]
+      end
+  | Session fs rowsets shared ops =>
+      SL [SZ 0; SZ (hash_sx (SL (map (obs_shared fs) shared)));
+          SL (map (fun x => SZ (hash_sx x)) (msteps fs rowsets (init_sess fs shared) ops))]
   end.
